@@ -114,7 +114,7 @@ class C02(Prop):
         if not (kv0["pre"].startswith("ok:") and kv1["pre"].startswith("ok:")) or kv0["pre"] == kv1["pre"]:
             return self.skip("guard")
         fails = []
-        if o1["outcome"] != "failed:diff" or o1["errors"] != "1" or o1["writes"] != "-" or fss[0][2] != fss[1][2]:
+        if not o1["outcome"].startswith("failed") or o1["errors"] != "1" or o1["writes"] != "-" or fss[0][2] != fss[1][2]:
             fails.append({"msg": "obs %d (%s): stored %r, received %r -> outcome=%s errors=%s writes=%s" %
                           (idx, kv1["api"], unhx(kv0["pre"][3:])[:40], unhx(kv1["pre"][3:])[:40], o1["outcome"], o1["errors"], o1["writes"]),
                           "v0": kv0["pre"][3:], "v1": kv1["pre"][3:], "api": kv1["api"]})
@@ -127,7 +127,7 @@ class C02(Prop):
         return False
 
     def nontrivial(self, case, ops, results):
-        return any(r[0] == "obs" and r[2]["outcome"].startswith("failed:diff") for r in results)
+        return any(r[0] == "obs" and r[2]["outcome"].startswith("failed") for r in results)
 
     def stats(self, case, ops, results, dist):
         dist["api:" + case["meta"].get("api", "?")] += 1
